@@ -45,10 +45,11 @@ type ReflStats struct {
 	NilOrigins, NilChecks             int64
 	Jobs                              int
 	Sample                            any
+	ByOp                              map[string]int64 // (operation/result kind) -> executions: vacuity scan
 }
 
 func runMCReflect(c *Ctx, jobs []ReflJob) ([]ReflVerdict, *ReflStats) {
-	st := &ReflStats{}
+	st := &ReflStats{ByOp: map[string]int64{}}
 	var out []ReflVerdict
 	var mu sync.Mutex
 	sem := make(chan struct{}, 12)
@@ -110,6 +111,7 @@ func runMCReflect(c *Ctx, jobs []ReflJob) ([]ReflVerdict, *ReflStats) {
 				Ops, Rdops           int
 				NilOrigins           int64 `json:"nil_origins"`
 				NilChecks            int64 `json:"nil_checks"`
+				ByOp                 map[string]int64 `json:"by_op"`
 			}
 			ok := false
 			for sc.Scan() {
@@ -141,6 +143,9 @@ func runMCReflect(c *Ctx, jobs []ReflJob) ([]ReflVerdict, *ReflStats) {
 			st.NilOrigins += sum.NilOrigins
 			st.NilChecks += sum.NilChecks
 			st.Jobs++
+			for k, n := range sum.ByOp {
+				st.ByOp[k] += n
+			}
 			if st.Sample == nil {
 				st.Sample = map[string]any{"job": job, "mutating_ops": sum.Ops, "read_ops": sum.Rdops, "history_example": "Set(oi,1); Clear(os) => oneof still holds oi; then all read ops compared"}
 			}
@@ -227,6 +232,23 @@ func mcReflectCheck(c *Ctx, inScope func(v ReflVerdict) bool) {
 	c.R.Cov["nil_origins_exercised"] = st.NilOrigins
 	c.R.Cov["nil_operation_checks"] = st.NilChecks
 	c.R.AddCount("evaluations", st.NilChecks)
+	// vacuity scan (TLC's own -coverage runs out of memory on these specs): every branch of
+	// Reflect!ApplyAt that the operation alphabets are meant to reach must have been taken --
+	// successful and panicking writes, valid and invalid views, present and absent keys
+	var never []string
+	for _, k := range []string{"Set/ok", "Clear/ok", "Mutable/view", "Mutable/panic", "SetNew/ok", "LAppend/ok", "LAppend/panic", "LSet/ok", "LSet/panic",
+		"LTruncate/ok", "LTruncate/panic", "LAppendMutable/view", "LAppendMutable/panic", "LAppendNew/ok", "MSet/ok", "MSet/panic", "MClear/ok",
+		"MMutable/view", "MMutable/panic", "MSetNew/ok", "SetUnknown/ok", "SetUnknownHold/bytes", "Has/bool", "Get/scalar", "Get/view", "Getter/scalar",
+		"NewField/view", "LGet/scalar", "LGet/panic", "LLen/int", "MGet/scalar", "MGet/invalid", "MHas/bool", "MRange/keys", "MRangeFirst/int",
+		"Which/int", "Range/nums", "RangeFirst/int", "GetUnknown/bytes", "IsValid/bool", "LIsValid/bool", "MIsValid/bool", "LNewElement/view", "MNewValue/view"} {
+		if st.ByOp[k] == 0 {
+			never = append(never, k)
+		}
+	}
+	c.R.Cov["mc_reflect_operation_result_pairs"] = st.ByOp
+	if len(never) > 0 && st.Jobs > 5 {
+		c.R.InternalErr("vacuous exploration: these operation/result branches of the reflection model were never exercised: %v", never)
+	}
 	c.R.Cov["exhaustive"] = true
 	c.R.Cov["rule"] = "every history of mutating protoreflect operations up to MaxLen over the schema-derived operation alphabet; each transition replayed on pulsar and dynamicpb in lock-step; in every distinct state all read operations compared"
 	if st.Sample != nil {
